@@ -65,6 +65,7 @@ fn upload_families(id: &str) -> Vec<Family<crate::c11::C11Plan>> {
             cut: None,
             fs_faults: vec![],
             symlinks: vec![],
+            then: None,
         }
     })]
 }
